@@ -240,6 +240,18 @@ def fam_orders(T=3, thorough=False):
     return out
 
 
+def fam_orders_companions(T=3):
+    """order book given AFTER a companion with a limited window (and behind a storage): what the companions leave on the shared grid must not matter"""
+    ids = Ids()
+    out = []
+    H = T
+    for orders, full, win in itertools.product([[(0, H, 1, 2)], [(0, 2, 1, 2), (1, 3, -1, 4)], [(2, H + 2, -2, 5), (0, 1, 1, 1)]], (False, True), [(2, 3), (1, 2), (3, T + 1)]):
+        assets = [slack(T, 'n1', [3, 1, 4][:T], lo=-3, hi=3, ec=1), F.contract(T, 'n1', -1, 1, [2, 5, 1][:T], ws=win[0], we=win[1]),
+                  F.orderbook(T, 'n1', orders, fullexec=full, fden=2)]
+        out.append(F.make_cfg(ids(), T, assets))
+    return out
+
+
 def fam_orders_dt(T=3):
     """orders on grids with longer steps (delivery = fraction x capacity x step length) and discounting"""
     ids = Ids()
